@@ -111,3 +111,74 @@ Proof.
   unfold terminated. rewrite Hp. destruct (loop_alive k) eqn:El; auto.
   destruct (quiescent_loop _ HI Hq _ _ Hn El) as [Hc _]. congruence.
 Qed.
+
+(* ---------- C09 / C13 (Q): after the read failure nothing is pending ---------- *)
+(* once the read loop has recorded the failure: in every quiescent state, a call none of whose threads is held
+   by the environment at a yield point has no operation pending: not the call itself (Invoke / NewStream), no
+   RecvMsg, SendMsg / CloseSend, Header, Trailer *)
+Lemma C09_settles_l ls s : lrun init ls = Some s -> quiescent s = true -> rerr s = true ->
+  forall c k, nth_error (calls s) c = Some k -> parked k = false -> any_pending k = false.
+Proof.
+  intros H Hq Hre c k Hn Hpk. apply inv_reach in H. destruct H as [HI HS].
+  pose proof (cinv_call _ _ _ HI Hn) as K. pose proof (nth_some_lt _ _ _ Hn) as Hlt.
+  pose proof (si_rerr_unreg _ HS Hre _ _ Hn) as Hreg.
+  unfold parked in Hpk. apply orb_false_iff in Hpk. destruct Hpk as [Hpk1 Hpk2].
+  (* a live loop is offering a message that no RecvMsg is there to take *)
+  assert (Hloop : loop_alive k = true -> exists b, s_loop k = LHand b /\ s_recv k <> RSel).
+  { intros Hl. destruct (quiescent_loop _ HI Hq _ _ Hn Hl) as [_ [(E1 & E2 & E3)|Hh]]; auto.
+    rewrite (ki_unreg_closed _ K Hreg) in E3; auto; discriminate. }
+  assert (Hfree : protected_free k = true).
+  { unfold protected_free. destruct (s_loop k) eqn:El; auto.
+    - destruct Hloop as (b & Hb & _); [unfold loop_alive; rewrite El; auto|]. try (rewrite El in Hb); discriminate.
+    - destruct Hloop as (b & Hb & _); [unfold loop_alive; rewrite El; auto|]. try (rewrite El in Hb); discriminate. }
+  unfold protected_free in Hfree.
+  unfold any_pending. repeat (apply orb_false_iff; split).
+  - (* the call thread *)
+    unfold call_pending. destruct (k_pc k) eqn:Ep; auto; exfalso.
+    + qrule Hq Hlt Hn r_check c. rewrite Ep, Hre in Hr. destruct (k_unary k); discriminate.
+    + qrule Hq Hlt Hn r_reg c. rewrite Ep, Hre in Hr. destruct (k_unary k); discriminate.
+    + qrule Hq Hlt Hn r_wait c. rewrite Ep in Hr. destruct (cbuf (k_chan k)); try discriminate.
+      rewrite (ki_unreg_closed _ K Hreg) in Hr; auto; discriminate.
+    + qrule Hq Hlt Hn r_unreg c. rewrite Ep in Hr. discriminate.
+    + qrule Hq Hlt Hn r_unreg c. rewrite Ep in Hr. discriminate.
+  - (* RecvMsg *)
+    unfold recv_pending. destruct (s_recv k) eqn:Er; auto; exfalso.
+    + qrule Hq Hlt Hn r_recv c. rewrite Er in Hr. unfold protected_free in Hr. rewrite Hfree in Hr.
+      destruct (s_done k); try discriminate. destruct park; discriminate.
+    + qrule Hq Hlt Hn r_recv c. rewrite Er in Hr.
+      destruct (loop_alive k) eqn:El.
+      * destruct (Hloop eq_refl) as (b & _ & Hne). congruence.
+      * assert (Hp : k_pc k = POpen) by (apply (ki_ops_open _ K); unfold ops_pending, recv_pending; rewrite Er; auto).
+        destruct (ki_dead_done _ K Hp El) as [Hc _]. rewrite Hc in Hr. discriminate.
+    + qrule Hq Hlt Hn r_recv c. rewrite Er in Hr. unfold protected_free in Hr. rewrite Hfree in Hr.
+      destruct (s_done k); try discriminate. destruct (sctx_done k); discriminate.
+  - (* SendMsg / CloseSend *)
+    unfold send_pending. destruct (s_sendq k) eqn:Eq; auto; exfalso.
+    qrule Hq Hlt Hn r_send c. rewrite Eq in Hr. unfold protected_free in Hr. rewrite Hfree in Hr.
+    destruct o.
+    * destruct (s_done k); try discriminate. destruct (sctx_done k || wfail s); discriminate.
+    * destruct (sctx_done k || wfail s); discriminate.
+  - (* Header *)
+    unfold header_pending. destruct (s_header k) eqn:Eh; auto; exfalso.
+    assert (Hp : k_pc k = POpen).
+    { apply (ki_ops_open _ K). unfold ops_pending, header_pending. rewrite Eh. rewrite orb_true_r. auto. }
+    qrule Hq Hlt Hn r_header c. rewrite Eh in Hr. unfold protected_free in Hr. rewrite Hfree in Hr.
+    assert (Hla : is_some (s_latch k) = true).
+    { apply (ki_latch _ K Hp). destruct (s_loop k) eqn:El; auto.
+      destruct Hloop as (b & Hb & _); [unfold loop_alive; rewrite El; auto|]. try (rewrite El in Hb); discriminate. }
+    destruct (s_latch k); discriminate.
+  - (* Trailer *)
+    unfold trailer_pending. destruct (s_trailerq k) eqn:Et; auto; exfalso.
+    qrule Hq Hlt Hn r_trailer c. rewrite Et in Hr. unfold protected_free in Hr. rewrite Hfree in Hr. discriminate.
+Qed.
+
+(* ... and a stream loop is dead unless it holds a message that no RecvMsg has come to take *)
+Lemma C09_loops_l ls s : lrun init ls = Some s -> quiescent s = true -> rerr s = true ->
+  forall c k, nth_error (calls s) c = Some k -> loop_alive k = true -> exists b, s_loop k = LHand b /\ s_recv k <> RSel.
+Proof.
+  intros H Hq Hre c k Hn Hl.
+  apply inv_reach in H. destruct H as [HI HS]. pose proof (cinv_call _ _ _ HI Hn) as K.
+  pose proof (si_rerr_unreg _ HS Hre _ _ Hn) as Hreg.
+  destruct (quiescent_loop _ HI Hq _ _ Hn Hl) as [_ [(E1 & E2 & E3)|Hh]]; auto.
+  rewrite (ki_unreg_closed _ K Hreg) in E3; auto; discriminate.
+Qed.
